@@ -115,6 +115,10 @@ def tasks_for(run, module, prop, quick_depth=2, thorough_depth=3, lf_quick=0, lf
         for rec in G.policy_inheritance_records():
             tasks.append({"rec": rec, "depth": 2, "module": module, "prop": prop, "tier": run.tier,
                           "line_fault_depth": 0, "inits": 2, "max_states": 800})
+    if prop in ("C05", "C08", "C02", "C03"):
+        for rec in G.base_first_records():
+            tasks.append({"rec": rec, "depth": 2, "module": module, "prop": prop, "tier": run.tier,
+                          "line_fault_depth": 0, "inits": 2, "max_states": 800})
     if prop in ("C05", "C06"):
         for rec in G.reprepare_records():
             tasks.append({"rec": rec, "depth": 2, "module": module, "prop": prop, "tier": run.tier,
